@@ -320,6 +320,7 @@ func describeKind(v codec.Value) string {
 
 func main() {
 	r := ev.New("C20", "exploration")
+	batchPart(r) // part 2 (batchfail.go): batches in which one or more events cannot be sent
 	vals := alphabet()
 	if !r.Thorough() {
 		var q []namedVal
